@@ -638,6 +638,78 @@ class Presence:
                 self.results.append((r, x))
 
 
+def vg_presence(F, v, inputs):
+    from .model import model
+    from .vg import subterms, is_some
+    from .terms import eval3
+    import itertools
+    m = model(F, v)
+    if m.last_vg.unknowns:
+        return False, 'unknown constructs in last()'
+    t = is_some(m.last_ret)
+    atoms = sorted({x for x in subterms(m.last_ret) if x[0] == 'childlast'}, key=str)
+    kids = sorted({a[1] for a in atoms})
+    if set(kids) != set(inputs):
+        return False, 'last() does not read every input child'
+    for combo in itertools.product((True, False), repeat=len(kids)):
+        asg = {}
+        for a in atoms:
+            asg[is_some(a)] = combo[kids.index(a[1])]
+            asg[('is_some', a)] = combo[kids.index(a[1])]
+        r = eval3(t, asg)
+        if r is None or r != all(combo):
+            return False, 'presence of the result is %s when the children report %s' % (r, dict(zip(kids, combo)))
+    return True, 'last() is Some exactly when every one of %s reports' % kids
+
+
+def vg_protocol(F, v):
+    """The forwarding protocol read off the value graph of update(): (ok, summary).
+    V1 every input child is fed exactly once, unconditionally, with the raw argument itself;
+    V1b every read of a child's last() sees the child after that update (epoch >= 1);
+    V2 neither the state nor the reported value depends on the raw argument;
+    V3 the path on which an input child delivers nothing changes no field;
+    V5 no unknown construct (any other use of an inner view is one)."""
+    from .model import model
+    from .vg import subterms
+    from .terms import nondelivering
+    m = model(F, v)
+    vg = m.up_vg
+    if vg.unknowns or m.last_vg.unknowns:
+        return False, 'unknown constructs'
+    kids = [f.name for f in v.children_fields()]
+    inputs = []
+    for cp in kids:
+        feeds = vg.child_fed.get(cp, [])
+        raw = [f_ for f_ in feeds if f_[1][0] == 'arg']
+        if raw:
+            inputs.append(cp)
+            if len(feeds) != 1 or any(isinstance(c, tuple) and c and c[0] != 'inloop' for c in feeds[0][0]) or any(isinstance(c, tuple) and c and c[0] == 'inloop' for c in feeds[0][0]):
+                return False, 'child %s is not fed exactly once, unconditionally' % cp
+    if not inputs:
+        return False, 'no child receives the raw argument'
+    terms = []
+    for ex in m.up_exits:
+        terms += list(ex.fields.values()) + [c for c in ex.pc if isinstance(c, tuple)]
+    terms.append(m.last_ret)
+    for t in terms:
+        for x in subterms(t):
+            if x[0] == 'childlast' and x[1] in inputs and x[2] < 1:
+                return False, 'last() of %s is read before its update' % x[1]
+            if x[0] == 'child' and x[1] in inputs and x[2] < 1:
+                return False, 'output of %s is read before its update' % x[1]
+    for ex in m.up_exits:
+        for k, t in ex.fields.items():
+            if any(x[0] == 'arg' for x in subterms(t)):
+                return False, 'field %s depends on the raw argument' % k
+        if nondelivering(ex.pc, inputs):
+            for k, t in ex.fields.items():
+                if t != ('in', k):
+                    return False, 'field %s is written although nothing was delivered' % k
+    if any(x[0] == 'arg' for x in subterms(m.last_ret)):
+        return False, 'last() depends on an argument'
+    return True, 'fed once unconditionally with the raw value, read after the update, no raw value in state, inert None path, no unknown construct'
+
+
 def run_c01(F, R):
     R.trust('rustc front end: resolved callees (View::update / View::last), binding ids (shadowing), field places')
     R.trust('parametricity: a child of generic type V: View<T> with private fields can only be observed through update/last (R5 checks this for every call site)')
@@ -653,11 +725,32 @@ def run_c01(F, R):
         if not kids:
             R.ob('R0-leaf', v.name, True, 'leaf view (no inner view): nothing to forward; behaviour covered by C14', v.file)
             continue
+        # Two independent analyses of the same protocol: (a) path counting / def-use over the structured IR (below), which knows
+        # the usual spellings of the gate, and (b) the same clauses read off the value graph (vg_protocol), which sees through
+        # helpers, destructured `self`, `?`, Option combinators and reference aliases. A report of (a) stands unless (b) proves
+        # every clause for this view on a graph without unknown constructs.
+        start = len(R.obligations)
         up = UpdateProtocol(v, R)
-        before = len([o for o in R.obligations if not o[2]])
         up.run()
-        after = len([o for o in R.obligations if not o[2]])
-        clean = after == before
+        synt_fail = [o for o in R.obligations[start:] if not o[2]]
+        if synt_fail:
+            okv, whyv = vg_protocol(F, v)
+            if okv:
+                # the syntactic walker did not recognise the spelling; the value-graph analysis decides
+                kept = [o for o in R.obligations[start:] if o[2]]
+                del R.obligations[start:]
+                R.obligations.extend(kept)
+                for o in synt_fail:
+                    R.rule_counts[o[0]] = max(0, R.rule_counts.get(o[0], 1) - 1)
+                R.ob('R1v', v.name, True, 'forwarding protocol established on the value graph (%s); the syntactic walker did not recognise the spelling: %s' % (whyv, synt_fail[0][3][:80]), v.file)
+                for rule_ in sorted({o[0] for o in synt_fail}):
+                    R.ob(rule_, '%s:by-value-graph' % v.name, True, 'clause decided on the value graph (R1v)', v.file)
+                if not any(o[0] == 'R2' for o in R.obligations[start:]):
+                    R.ob('R2', '%s:by-value-graph' % v.name, True, 'clause decided on the value graph (R1v)', v.file)
+                from .model import model as _model
+                if _model(F, v).touched:
+                    up.gate_seen = True     # state is written, and V3 showed it is only written when the inner view delivered
+        clean = not [o for o in R.obligations[start:] if not o[2]]
         for c in up.children:
             if c in up.input_children:
                 n_edges += 1
@@ -673,7 +766,15 @@ def run_c01(F, R):
             R.ob('R3-stateless', v.name, clean, 'update() only forwards: no state written, nothing to gate', v.file)
         R.ob('R5', v.name, clean, 'inner views are used only through View::update / View::last', v.file)
         if len(up.input_children) >= 2:
+            st4 = len(R.obligations)
             Presence(v, R, up.input_children).run()
+            if any(not o[2] for o in R.obligations[st4:]):
+                # second reading on the value graph: last() is Some exactly when every input child's last() is (3-valued
+                # evaluation over the presence atoms), whatever helper / combinator spells it
+                okp, whyp = vg_presence(F, v, up.input_children)
+                if okp:
+                    del R.obligations[st4:]
+                    R.ob('R4', v.name, True, 'on the value graph: ' + whyp, v.file)
     # R6: an inner view is observed and driven only from View::update / View::last: constructors and every other inherent
     # method must not call View::update / View::last at all (a wrapper whose initial state depends on its child's current
     # output is not the stand-alone wrapper of the decomposition)
